@@ -163,22 +163,44 @@ func (w *World) execPointCall(c *pointCall) {
 	}
 
 	// --- the drawn objects (aliasing as drawn)
-	pa := make([]*secp256k1.Point, len(c.pargs))
+	// the caller's operand slices have spare capacity, with a sentinel in
+	// the element right behind the part that is passed: a routine that
+	// appends to its argument slices writes into the caller's memory
+	sentinelP, sentinelS := new(secp256k1.Point), secp256k1.NewScalar()
+	paBack := make([]*secp256k1.Point, len(c.pargs)+1)
+	paBack[len(c.pargs)] = sentinelP
+	pa := paBack[:len(c.pargs)]
 	for i, a := range c.pargs {
 		pa[i] = w.points[a]
 	}
-	sa := make([]*secp256k1.Scalar, len(c.sargs))
+	saBack := make([]*secp256k1.Scalar, len(c.sargs)+1)
+	saBack[len(c.sargs)] = sentinelS
+	sa := saBack[:len(c.sargs)]
 	for i, a := range c.sargs {
 		sa[i] = w.scalars[a]
 	}
 	po2 := protect(func() { c.f(w.points[c.recv], pa, sa) })
+	spareTouched := paBack[len(c.pargs)] != sentinelP || saBack[len(c.sargs)] != sentinelS
+	for i, a := range c.pargs {
+		if pa[i] != w.points[a] {
+			spareTouched = true // the routine rearranged the caller's slice
+		}
+	}
+	for i, a := range c.sargs {
+		if sa[i] != w.scalars[a] {
+			spareTouched = true
+		}
+	}
 	enc2 := encState(w.points[c.recv])
 
 	out := enc2
 	if po2.panicked {
 		out = "panic"
 	}
-	w.r.Hist("%d %s alias[%s] -> %s", w.step, c.desc, pat, out)
+	w.r.Hist("%d %s alias[%s] -> %s callerslices=%v", w.step, c.desc, pat, out, !spareTouched)
+	if spareTouched {
+		w.r.Violate("C18", "operand-modified", c.name+":argument-slices", w.step, "%s: the call wrote into the caller's argument slices (reordered their elements or used their spare capacity)", c.desc)
+	}
 
 	// --- oracles
 	if expectPanic {
@@ -377,15 +399,15 @@ func (w *World) opObserve() {
 		case "IsYOdd":
 			got = fmt.Sprint(p.IsYOdd())
 		case "UncompressedBytes":
-			got = hx(p.UncompressedBytes())
+			got = hxOwn(p.UncompressedBytes())
 		case "CompressedBytes":
-			got = hx(p.CompressedBytes())
+			got = hxOwn(p.CompressedBytes())
 		case "XBytes":
 			x, err := p.XBytes()
 			if err != nil {
 				got = "error"
 			} else {
-				got = hx(x)
+				got = hxOwn(x)
 			}
 		}
 	})
@@ -809,3 +831,13 @@ var specialUniform = func() []*big.Int {
 	}
 	return out
 }()
+
+// hxOwn renders an encoding that an observation was handed and then
+// overwrites it: the bytes are the caller's.
+func hxOwn(b []byte) string {
+	out := hx(b)
+	for i := range b {
+		b[i] ^= 0xff
+	}
+	return out
+}
